@@ -156,6 +156,28 @@ def handleTheme (i o : Json) : Except String Verdict := do
           return .mismatch "theme-errors" s!"model: {n} errors, go: {oc} with {nerr} on {(getArr i "fields").toOption.getD #[]}"
         return .ok
 
+def handleImp (i o : Json) : Except String Verdict := do
+  match ← outcomeProblem o with
+  | some (sig, d) => return .specfalse sig d
+  | none =>
+    let g ← getArr i "graph"
+    let env : ClassEnv ← g.toList.mapM fun e => do
+      match e with
+      | .arr #[.str n, .arr ts] =>
+        let tl ← ts.toList.mapM fun t => match t with | .str s => pure s | _ => throw "target"
+        pure (n, tl)
+      | _ => throw "graph entry"
+    match importWalk env (env.length + 1) [] "index" with
+    | .error _ => return .mismatch "imp-model-fuel" "model ran out of fuel (impossible by import_terminates)"
+    | .ok n =>
+      let cyc ← getNat o "cyclic"
+      let other ← getNat o "othererrs"
+      let oc ← getStr o "outcome"
+      if other != 0 then return .mismatch "imp-other-errors" s!"unexpected non-cycle errors on {g}"
+      if (n > 0) != (cyc > 0) || (n == 0 && oc != "graph") then
+        return .mismatch "imp-cycle" s!"model: {n} refused imports, go: {cyc} cyclic-import errors ({oc}) on {g}"
+      return .ok
+
 def handleC07 (j : Json) : Except String Verdict := do
   let k ← getStr j "k"
   let i ← getObj j "in"
@@ -165,6 +187,7 @@ def handleC07 (j : Json) : Except String Verdict := do
   | "mp" => handleMP i o
   | "arr" => handleArr i o
   | "theme" => handleTheme i o
+  | "imp" => handleImp i o
   | "edgekw" =>
     match ← outcomeProblem o with
     | some (sig, d) => return .specfalse sig d
